@@ -21,6 +21,15 @@ CLAIMED = {
  "C06": dict(level="model_checking", ref="DESIGN.md 5 (C06), 6",
    text="For every case of a corpus (registries with several renamed paths, unused parameters, generics, a chain-metadata closure x settings with same-last-segment derives, attributes differing only in arguments, specific+recursive registrations, substitutes, unknown paths): every permutation of each registration list, every map-iteration schedule with <= 2 (large traces: <= 1) deviating iteration points plus uniform permutations - explored through the verif-hooks schedulable maps, like a context-bounded scheduler - and 3 fresh mc-plain processes with real std maps must give a token-identical module, de-duplicated registry and validation result; derive/attribute lists must be strictly sorted.",
    note="Map seeds are represented by iteration orders of look-alike maps (feature verif-hooks); the look-alike is tied to std maps by the mc/mc-plain differential run on every case. The level of schedule exploration completed per case is in the evidence."),
+ "C07": dict(level="model_checking", ref="DESIGN.md 5 (C07)",
+   text="Driver D-subst: 5 shapes of the substituted type (0/1/2 parameters, one skipped, the prelude BTreeMap) x 13 use sites (root, named/unnamed/variant field, boxed, under Vec/Option/array/tuple/map value, as argument of another generic type, of itself, inside a generic parent where its argument is the parent's parameter) x 14 rule forms (pass-through, same, swapped, nested, repeated, fixed extra, fewer/more target parameters, generics on one side only, crate::-rooted, `_N`-named source parameters): the substituted path must be neither defined nor mentioned, and every resolve_type_path(id) and every emitted field type must equal an independent reference substitution (token-tree walk written from the statement).",
+   note="Expected paths come from the independent printer families::Expect; one rule at a time."),
+ "C08": dict(level="model_checking", ref="DESIGN.md 5 (C08)",
+   text="Driver D-graph (all type graphs grown edge by edge: struct/enum/generic/wrapper/empty-enum nodes, 10 kinds of reference incl. marker-only generic argument, cycles) x every registration of {specific derive, specific attribute, recursive derive, recursive attribute, both} on up to two nodes (plus global ones, CompactAs path set/unset): every emitted item's derive and attribute set must lie between the lower bound (global + own path + closure over generated items mentioned in field types of a recursively registered item + CompactAs iff single unsigned field) and the upper bound (registry reachability incl. type parameters).",
+   note="The recursive clause is checked as two bounds, exact where the statement is exact."),
+ "C09": dict(level="model_checking", ref="DESIGN.md 5 (C09)",
+   text="For every D-arms registry mentioning a heap prelude type (field level, nested, generic argument, inside a substituted parameter) plus all leaves: all 192 vertices of the switch cube (alloc path x docs x codec attributes x root name x compact path x bits path x a generic substitute) with per-vertex oracles (no `std`, every Vec/String/Box/Cow/collection path rooted at the alloc path, exact doc lines incl. blank ones, codec attributes iff on, variant indices, compact markers), and every cube edge checked metamorphically (rewriting the governed tokens of one endpoint gives the other token for token).",
+   note="Edges between a failing (path unset) and a succeeding vertex are not compared."),
  "C10": dict(level="fault_enumeration", ref="DESIGN.md 5 (C10)",
    text="Every single fault of each documented kind (id swap, id shift, named/unnamed mix per field, compact path unset, bits path unset, dangling id at every field / element / tuple element / bit store / bit order / type parameter site) on every base registry of driver D-arms, evaluated through generate_types_mod, ensure_unique_type_paths and resolve_type_path of every id under catch_unwind and compared with the documented error variant and payload computed by a reference traversal; plus the fault-free side (D-arms with special type names, D-generic, D-family, real scale-info corpus registries, Polkadot): Ok or DuplicateTypePath only, never a panic.",
    note="Which calls reach a fault is decided by a reference traversal written from the documented behaviour. PhantomData in type position is a recorded known finding."),
@@ -42,6 +51,12 @@ CLAIMED = {
  "C16": dict(level="model_checking", ref="DESIGN.md 5 (C16)",
    text="Breadth-first search over all histories of public builder calls (52-call alphabet incl. one invalid argument per documented error kind) up to depth 3 (thorough 4), states = abstract settings; every transition replays the history on fresh real objects and compares: returned error kind, 'rejected => rules unchanged', complete observable content (getters, iter, contains) against the map/set accumulator model, and the derives/attributes actually emitted on a probe registry (parent/child/unrelated) under all map-iteration schedules with <= 1 deviating point.",
    note="Specific vs recursive registrations are only distinguishable through generation on the probe registry."),
+ "C17": dict(level="model_checking", ref="DESIGN.md 5 (C17)",
+   text="Driver D-perm: for every registry of D-arms, coincidence-free D-generic, D-family and D-graph, all n! consistent renumberings for n <= 5 (thorough 7) explored as the Cayley graph of adjacent transpositions (all transpositions, rotations and the reversal above that; a stride of them for Polkadot): module token-identical, same partition into renamed groups, same module after de-duplication; and every single-id and pair closure obtained with the real PortableRegistry::retain: same item per retained path, same description, same example for retained ids.",
+   note="Twins carry equal docs; after de-duplication only the partition is compared (suffixes follow order of appearance)."),
+ "C18": dict(level="model_checking", ref="DESIGN.md 5 (C18)",
+   text="For every variant of every enum and every struct of every item emitted without generic parameters in D-arms, D-graph and the Polkadot registry x 5 settings: the struct built through create_composite_ir_kind + CompositeIR::new + upcast_composite is parsed and interpreted in the scope of the generated root module: field names, order, pub, per-field shape bisimilar to the registry field (compact marker included), field types and compact markers token-identical to the generated item's own variant, derives/attributes exactly the global ones plus CompactAs under the single-unsigned-field rule.",
+   note="Byte-level equality with the variant payload follows from per-field shape equality; real encodings belong to the compile-farm tier."),
 }
 WIP = "check not built yet in this session (planned design: DESIGN.md section 5)"
 props=[json.loads(l) for l in open('/verif/properties.jsonl')]
